@@ -202,7 +202,7 @@ class World:
                 return 0, 0, None
             if not isinstance(mn, (dict, list)):
                 return rn, mn, None
-            return copy.copy(rn), copy.copy(mn), None
+            return (rn.copy() if spec.get('via') == 'method' else copy.copy(rn)), copy.copy(mn), None
         if k == 'bad':
             return (x for x in [1]), None, 'unconvertible_value'
         raise ValueError(k)
@@ -824,7 +824,28 @@ def op_rename_child(w, real, mod, op, fk):
     return (lambda: real.ayns.rename_child(old, new)), (lambda: None), 'resync'
 
 
+def op_remove_node(w, real, mod, op, fk):
+    # the path-based form of remove_child (a one-component path from this container)
+    k = op['key']
+    if isinstance(mod, dict):
+        if k not in mod:
+            fk.append('missing_key')
+    else:
+        _idx_fault(mod, k, fk)
+    return (lambda: real.ayns.remove_node([k])), (lambda: None), 'resync'
+
+
+def op_replace_node(w, real, mod, op, fk):
+    # not implemented by the pinned library (NotImplementedError): then nothing may change; if it does something, the invariants decide
+    rv, mv, f = w.mk_value(op['v'])
+    if f:
+        fk.append(f)
+    fk.append('replace_node')
+    return (lambda: real.ayns.replace_node(rv, [op['key']])), (lambda: None), 'resync'
+
+
 OPS = {
+    'remove_node': op_remove_node, 'replace_node': op_replace_node,
     'setitem': op_setitem, 'setattr': op_setattr, 'delitem': op_delitem, 'delattr': op_delattr, 'update': op_update,
     'setdefault': op_setdefault, 'pop': op_pop, 'clear': op_clear, 'append': op_append, 'insert': op_insert,
     'extend': op_extend, 'remove': op_remove, 'set_child': op_set_child, 'remove_child': op_remove_child,
@@ -874,6 +895,8 @@ def _build_machine(max_steps):
             return {'k': 'node_at', 'sel': draw(sel)}
         if c == 3:
             return {'k': 'copy_of', 'sel': draw(sel)}
+        if c == 5:
+            return {'k': 'copy_of', 'sel': draw(sel), 'via': 'method'}       # node.copy() instead of copy.copy(node)
         if c == 4:
             return {'k': 'lazy', 'n': draw(st.integers(3, 8))}
         return {'k': 'py', 'v': enc(draw(py_values))}
@@ -914,7 +937,7 @@ def _build_machine(max_steps):
                     p = p + [ks[(v['sel'] // 13) % len(ks)]]
                 if not p:
                     return {'k': 'py', 'v': enc(0)}
-                return {'k': v['k'], 'path': p}
+                return {'k': v['k'], 'path': p, **({'via': v['via']} if 'via' in v else {})}
             return v
 
         def _do(self, op):
@@ -937,21 +960,21 @@ def _build_machine(max_steps):
             if len(_LAST['samples']) < 2 and len(self.w.ops) >= 4:
                 _LAST['samples'].append(copy.deepcopy(self.w.ops[:12]))
 
-        @rule(s=sel, key=any_keys, v=values(), how=st.sampled_from(['item', 'attr', 'child']))
+        @rule(s=sel, key=any_keys, v=values(), how=st.sampled_from(['item', 'attr', 'child', 'item', 'attr', 'child', 'node']))
         def d_set(self, s, key, v, how):
             at = self._pick(s, dict)
-            name = {'item': 'setitem', 'attr': 'setattr', 'child': 'set_child'}[how]
+            name = {'item': 'setitem', 'attr': 'setattr', 'child': 'set_child', 'node': 'replace_node'}[how]
             if how == 'attr' and (not isinstance(key, str) or key.startswith('_')):
                 name = 'setitem'
             self._do({'op': name, 'at': at, 'key': key, 'v': self._resolve(v)})
 
-        @rule(s=sel, key=keys, ks=sel, how=st.sampled_from(['item', 'attr', 'child', 'pop', 'pop_default']))
+        @rule(s=sel, key=keys, ks=sel, how=st.sampled_from(['item', 'attr', 'child', 'pop', 'pop_default', 'node']))
         def d_del(self, s, key, ks, how):
             at = self._pick(s, dict)
             node = self.w.m_at(at)
             if isinstance(node, dict) and node and ks % 4:
                 key = list(node.keys())[ks % len(node)]
-            name = {'item': 'delitem', 'attr': 'delattr', 'child': 'remove_child', 'pop': 'pop', 'pop_default': 'pop'}[how]
+            name = {'item': 'delitem', 'attr': 'delattr', 'child': 'remove_child', 'pop': 'pop', 'pop_default': 'pop', 'node': 'remove_node'}[how]
             if name == 'delattr' and (not isinstance(key, str) or key.startswith('_')):
                 name = 'delitem'
             op = {'op': name, 'at': at, 'key': key}
@@ -1001,11 +1024,11 @@ def _build_machine(max_steps):
         def l_append(self, s, v):
             self._do({'op': 'append', 'at': self._pick(s, list), 'v': self._resolve(v)})
 
-        @rule(s=sel, i=indices, v=values(), how=st.sampled_from(['insert', 'insert', 'setitem', 'set_child']))
+        @rule(s=sel, i=indices, v=values(), how=st.sampled_from(['insert', 'insert', 'setitem', 'set_child', 'insert', 'setitem', 'set_child', 'replace_node']))
         def l_put(self, s, i, v, how):
             self._do({'op': how, 'at': self._pick(s, list), 'key': i, 'v': self._resolve(v)})
 
-        @rule(s=sel, i=st.one_of(indices, st.none()), how=st.sampled_from(['delitem', 'pop', 'remove_child', 'remove']))
+        @rule(s=sel, i=st.one_of(indices, st.none()), how=st.sampled_from(['delitem', 'pop', 'remove_child', 'remove', 'remove_node']))
         def l_del(self, s, i, how):
             if i is None and how != 'pop':
                 i = 0
